@@ -192,6 +192,13 @@ def run(ctx):
                   bad_msg=f"event-id format {var} is encoded with alphabet {alpha!r}; the specification says "
                           f"{'standard' if want == STD else 'URL-safe'} base64")
     ctx.floor("event id format variants", len(efv["variants"]), 3)
+    # C05 relies on redaction being the specification's and idempotent (the signed / reference-hashed form is the redacted event, and
+    # verification redacts again): the redaction rules of C04 are part of this check
+    from . import C04 as _C04
+    _C04.run(ctx)
+    # what is signed / hashed is the canonical JSON form: the canonical-JSON rules of C01 are part of this check
+    from . import C01 as _C01
+    _C01.run(ctx)
     ctx.assumptions += ["sha2, base64 and serde_json implement SHA-256, RFC 4648 and compact JSON",
                         "collision resistance ('every change to a covered field changes the hash') is not decided"]
     ctx.samples += [{"fn": "content_hash", "len": 65535, "expected": "accepted"}, {"fn": "content_hash", "len": 65536, "expected": "Error::PduSize"},
